@@ -222,7 +222,7 @@ def c19(tier):
                             note="one list operation from an arbitrary state of this shape vs array model (inductive step)"))
     for shape in (0, 1, 2, 4, 5, 6):   # 3 (number) and 7 (table{a:list}) give no verdict in 240 s: not claimed
         exist = [None] + ([4, 5] if tier != "quick" or shape in (0, 4) else [])
-        for ex, which in [(e, w) for e in exist for w in range(4)]:
+        for ex, which in [(e, w) for e in exist for w in (range(5) if shape == 4 else range(4))]:       # which 4: grow the cloned list
             d = {"SHAPE": shape, "WHICH": which, "NORM_SINGLETONS": None}      # table key U+212B: normalised form differs from the spelling entered
             if ex is not None:
                 d.update({"INTO_EXISTING": None, "EXISTING_SHAPE": ex})
@@ -232,7 +232,7 @@ def c19(tier):
                         native_extra=["stubs/icu_norm_cheap.c"], object_bits=10, group="h19_clone", timeout=600 if tier != "quick" else None,
                         bounds={"shape": ["char", "unknown", "n/a", "number", "list[char,n/a]", "table{a:char}", "list[list[char]]", "table{a:list[char]}"][shape],
                                 "contents": "texts of <= 2 units, quoted flag, digits symbolic", "target": "new object" if ex is None else "existing value of shape %d" % ex,
-                                "then": ["free original", "free clone", "re-init clone", "re-init original"][which]},
+                                "then": ["free original", "free clone", "re-init clone", "re-init original", "extend the clone"][which]},
                         note="clone: deep equality, no sharing, independence under release / re-initialisation, no leak"))
     for pk in (0, 1):
         for npre in ((2,) if tier == "quick" else (1, 2, 3)):
@@ -652,6 +652,7 @@ DEFECTS = [("missing_value", "N", {"EXPECT_ERRS": "133", "EXPECT_SET": 1}), ("mi
            ("partial_packet3", "LNNNVVVVNV", {"EXPECT_ERRS": "53", "EXPECT_ADDP": 2, "EXPECT_SET": 1}), ("dup_item", "NVNV", {"EXPECT_ERRS": "41", "DUP_AT": 2, "EXPECT_SET": 1}),
            ("dup_loop_name", "LNNVV", {"EXPECT_ERRS": "41", "DUP_AT": 2, "EXPECT_ADDP": 1}),
            ("dup_in_header", "LNNVV", {"EXPECT_ERRS": "41", "SAME_AT": 2, "SAME_AS": 1, "EXPECT_ADDP": 1}),
+           ("dup_in_header_rev", "LNNVV", {"EXPECT_ERRS": "41", "SAME_AT": 2, "SAME_AS": 1, "SAME_REV": None, "EXPECT_ADDP": 1}),
            ("dup_in_header3", "LNNNVVVVVV", {"EXPECT_ERRS": "41", "SAME_AT": 3, "SAME_AS": 1, "EXPECT_ADDP": 2})]
 
 
@@ -811,11 +812,11 @@ def write_queries(tier, version, prefix):
                                          "~ciffile.c~for (tok = text, next_tok = tok; tok != NULL; tok = next_tok):%d" % (min(n, k + tail + 1) + 2)]
                     + ["%s.*:%d" % (f, sm + 2) for f in ("harness", "ref_decode_text", "ref_scan_text", "ref_scan_delim", "ref_scan_ws", "ref_scan_unquoted")],
                     mode="func", replay_libs=ICU_LIBS, native_extra=["stubs/ustdio_sink.c"], uthash="model", mem_gb=(30 if fill else 10), timeout=tmo,
-                    kf=["TRIPLE_QUOTED_COLUMN", "TEXT_TRAILING_NEWLINE"],
+                    kf=["TRIPLE_QUOTED_COLUMN", "TEXT_TRAILING_NEWLINE", "PREFIX_NO_FOLD_OVERLENGTH"],
                     bounds={"writer": WFN_NAMES[wfn], "value text": "%d symbolic code units over the CIF %s value characters (no CR)%s" % (k + tail, "2.0" if version == 2 else "1.1", ", then %d concrete 'a'%s" % (fill, ", then %d symbolic" % tail if tail else "") if fill else ""),
                             "start column": "0..%d symbolic" % WL, "CIF_LINE_LENGTH": WL},
                     note="presentation writer (arguments assumed to meet oracles/writer_contract.h) -> in-memory sink -> reference scanner (+ text-field decoder)"))
-    for (k, fill) in (((1, 0), (2, 0), (3, 0), (4, 0), (1, 15)) if tier == "quick" else ((1, 0), (2, 0), (3, 0), (4, 0), (5, 0), (6, 0), (1, 15), (2, 15))):      # (2, 22): SAT conversion out of memory at 10 GB
+    for (k, fill) in (((1, 0), (2, 0), (3, 0), (4, 0), (1, 15), (2, 13)) if tier == "quick" else ((1, 0), (2, 0), (3, 0), (4, 0), (5, 0), (6, 0), (1, 15), (2, 15), (2, 13), (2, 12))):      # (2, 22): SAT conversion out of memory at 10 GB
         WL = 16 if fill else 20
         n = k + fill + (1 if fill else 0)
         qs.append(Q("%s_dispatch_K%d%s" % (prefix, k, "_F%d" % fill if fill else ""), "h02_dispatch.c", defs={"KLEN": k, "FILL": fill, "WVERSION": version, "CIF_API_VERIF_LINE_LENGTH": WL},
